@@ -311,7 +311,7 @@ def run_geometry(rep, facts):
     elif not nbad:
         rep.ok("R3.10", "move_input/postcondition", "%d path(s), %d obligation(s): the last rem_len bytes end up at [0, input_len)%s"
                % (len(ends), n, " (compaction written out in %s)" % b.npath if cg["hosted"] else ""), b.loc())
-    rep.floor("R3.10", "geometry obligations", total, 13)
+    rep.floor("R3.10", "geometry obligations", total, 8)
 
 
 # ---- R3.11: arithmetic / slicing safety of the framing code ---------------------------------------------------
